@@ -507,9 +507,9 @@ def gen_history(rng, idx, focus="mixed", refresh=True):
     L = Listing()
     open_inc = set()
     r0 = rng.random()
-    if r0 < 0.90:
+    if r0 < 0.94:
         steps.append(register_all(pairs, rng.choice([0, 0, SEC])))
-    elif r0 < 0.95:
+    elif r0 < 0.97:
         # group lists arrive before any cluster list (nothing happens), the registration comes later or never
         steps.append(gen_refresh(rng, "all", 0, pairs, len(names), L))
     for st in steps:
@@ -524,9 +524,11 @@ def gen_history(rng, idx, focus="mixed", refresh=True):
         if rmode != "none":
             pr = (0.30 if s == 1 else 0.22) if is_open else 0.07
             if key not in L.listed:
-                pr = 0.5
+                pr = 0.5 if key[0] in L.known else 0.75
             if rng.random() < pr:
-                if key not in L.listed:
+                if key[0] not in L.known:
+                    kind = "cycle"
+                elif key not in L.listed:
                     kind = rng.choice(["all", "cycle", "cycle", "superset"])
                 elif rmode == "benign":
                     kind = rng.choice(["all", "all", "superset", "cycle", "dup"])
